@@ -65,6 +65,10 @@ def gen_tmd(rng, category=None):
             extra[name] = bytes(rng.choice([0, 0x7F, 0x80, 0xFF, rng.getrandbits(8)]) for _ in range(width))
     if rng.random() < 0.3:
         extra['issuer'] = bytes(rng.choice(b'Root-CA0123456789abcdefXS') for _ in range(rng.randrange(1, 0x40)))
+        if rng.random() < 0.4 and len(extra['issuer']) > 6:
+            # the field is 0x40 bytes, not a C string: a NUL in the middle is a byte like any other
+            k = rng.randrange(1, len(extra['issuer']) - 2)
+            extra['issuer'] = extra['issuer'][:k] + b'\0' + extra['issuer'][k + 1:]
     sig = rng.choice(SIGS)
     extra['sig_padding'] = bytes(0x40 if sig in (0x10002, 0x10005) else 0x3C)
     kw = dict(sig_type=sig, title_version=rng.getrandbits(16), save_size=rng.getrandbits(32), srl_save_size=rng.getrandbits(32), extra=extra)
